@@ -131,4 +131,20 @@ C18_QuorumOfWellFormed == (last.op = "mint" /\ last.ok) =>
 C18_AmountsUnlessUnstaked == (last.op = "mint" /\ last.ok) =>
      /\ last.dClient = last.amt - last.fee /\ last.dWallet = -last.dClient
      /\ (last.credited = last.fee \/ (last.payee \notin Staked /\ last.credited = 0))
+
+(* the same as action properties: checked by TLC on every transition, also when the exhaustive *)
+(* configs identify states by the VIEW <<auth, minted, burnNonce>> (last does not influence the future) *)
+P_C19_BurnExact == [][BurnStepOK(last')]_vars
+P_C19_BurnGuard == [][BurnGuardOK(last')]_vars
+P_C18_MintQuorum == [][MintQuorumOK(last')]_vars
+P_C18_ExactThreshold == [][(last'.op = "mint" /\ last'.ok) =>
+     Cardinality(ValidSigners(last'.sigs, last'.preAuth)) >= Threshold(PctMilli, Cardinality(last'.preAuth))]_vars
+P_C18_NonceOnce == [][MintNonceOK(last')]_vars
+P_C18_MintAmounts == [][MintAmountsOK(last')]_vars
+P_C18_QuorumOfWellFormed == [][(last'.op = "mint" /\ last'.ok) =>
+     (last'.selfRcv /\ last'.wellFormed >= Threshold(PctMilli, Cardinality(last'.preAuth)))]_vars
+P_C18_AmountsUnlessUnstaked == [][(last'.op = "mint" /\ last'.ok) =>
+     /\ last'.dClient = last'.amt - last'.fee /\ last'.dWallet = -last'.dClient
+     /\ (last'.credited = last'.fee \/ (last'.payee \notin Staked /\ last'.credited = 0))]_vars
+StateView == <<auth, minted, burnNonce>>
 =============================================================================
